@@ -167,7 +167,15 @@ class Orbital(object):
         return self.satellite_name + " " + str(self.tle)
 
     def get_last_an_time(self, utc_time):
-        """Calculate time of last ascending node relative to the specified time."""
+        """Calculate time of last ascending node relative to the specified time.
+
+        The node is located to within 1 m in z (a fraction of a millisecond in time).
+        """
+        # z tolerance in km. The nodal period is the difference of two node times: a tolerance of 1 km
+        # leaves up to 1 / (v sin i) seconds of error in each of them (seconds at low inclinations),
+        # which the orbit number then accumulates on every revolution.
+        tol = 1e-3
+
         # Propagate backwards to ascending node
         dt = np.timedelta64(10, "m")
 
@@ -182,14 +190,14 @@ class Orbital(object):
             t_new = t_old - dt
             pos1, vel1 = self.get_position(t_new, normalize=False)
 
-        # Return if z within 1 km of an
-        if np.abs(pos0[2]) < 1:
+        # Return if z within tol of an
+        if np.abs(pos0[2]) < tol:
             return t_old
-        elif np.abs(pos1[2]) < 1:
+        elif np.abs(pos1[2]) <= tol:
             return t_new
 
-        # Bisect to z within 1 km
-        while np.abs(pos1[2]) > 1:
+        # Bisect to z within tol
+        while np.abs(pos1[2]) > tol:
             # pos0, vel0 = pos1, vel1
             dt = (t_old - t_new) / 2
             t_mid = t_old - dt
@@ -317,12 +325,17 @@ class Orbital(object):
                 # Epoch not at ascending node
                 self.orbit_elements.an_time = self.get_last_an_time(
                     self.tle.epoch)
+                node_shift = np.timedelta64(0, "us")
             else:
                 # Epoch at ascending node (z < 1 km) and positive v_z
                 self.orbit_elements.an_time = self.tle.epoch
+                # The node itself, just before or just after the epoch, located as precisely as any other
+                node_shift = self.get_last_an_time(
+                    self.tle.epoch + np.timedelta64(10, "m")) - self.tle.epoch
 
-            self.orbit_elements.an_period = self.orbit_elements.an_time - \
-                self.get_last_an_time(self.orbit_elements.an_time
+            # Nodal period: the difference of two precisely located consecutive nodes
+            self.orbit_elements.an_period = (self.orbit_elements.an_time + node_shift) - \
+                self.get_last_an_time(self.orbit_elements.an_time + node_shift
                                       - np.timedelta64(10, "m"))
 
             dt = astronomy._days(utc_time - self.orbit_elements.an_time)
